@@ -11,9 +11,9 @@ ENGINE = "e1-bounded-enumeration"
 
 BOUNDS = {
     "quick": {"chain_n": 7, "br_n": 4, "br_pairs": 3, "spell_n": 4, "ws_n": 2, "redundant_n": 3, "kinds_n": 3,
-              "long_n": [14], "long_dev": 1},
+              "long": [[14, 1]]},
     "thorough": {"chain_n": 9, "br_n": 5, "br_pairs": 3, "spell_n": 5, "ws_n": 3, "redundant_n": 4, "kinds_n": 4,
-                 "long_n": [13, 17, 24], "long_dev": 2},
+                 "long": [[13, 2], [17, 1], [24, 1]]},
 }
 GAPS = ("", " ", "\t\n")
 
@@ -28,8 +28,8 @@ def describe(tier):
                 f"lexical tokens for <= {b['ws_n']} atoms (two gap values for the largest n) plus one all-gaps-padded variant of "
                 f"every (a)/(b) string; (e) every complete operand / the root / every bracket content of every (b) string with <= "
                 f"{b['redundant_n']} atoms wrapped in redundant brackets once and twice; (f) all 4^n atom-kind combinations "
-                f"([n] [nP] [nPa..b] [UBi]) for <= {b['kinds_n']} atoms over all chains; (g) long chains with {b['long_n']} atoms: "
-                f"one base operator spelling (each of the 10) everywhere except at <= {b['long_dev']} positions (every position, "
+                f"([n] [nP] [nPa..b] [UBi]) for <= {b['kinds_n']} atoms over all chains; (g) long chains [atoms, max deviations] in {b['long']}: "
+                "one base operator spelling (each of the 10) everywhere except at the deviating positions (every position, "
                 "every other spelling) - deviation-bounded. Oracle: the tree returned by "
                 "parse_condition_expression_to_tree must be a binarisation of the n-ary precedence tree of the hand-written "
                 "reference parser R2 that never regroups across a bracket (for variants: of the BASE string's reference tree). "
@@ -66,9 +66,9 @@ def plan(tier, seed):
         for ops in itertools.product(S.OPS4, repeat=n - 1):
             items.append({"fam": "ws", "n": n, "ops": "".join(ops), "gaps": 3 if n < max(3, b["ws_n"]) else 2})
     # (g) long chains, deviation bounded
-    for n in b["long_n"]:
+    for n, maxdev in b["long"]:
         for base in range(10):
-            for dev in range(1, b["long_dev"] + 1):
+            for dev in range(1, maxdev + 1):
                 if dev == 1:
                     items.append({"fam": "long", "n": n, "base": base, "dev": 1, "first": None})
                 else:
